@@ -58,6 +58,30 @@ def strategy(draw):
                 corners_as=draw(st.sampled_from(["list", "tuple"])))
 
 
+BIG = {"quick": 64, "thorough": 640}
+
+
+@st.composite
+def strategy_big(draw):
+    """Deployment-scale tiling: one record of q*k + r samples with k = 2^14 .. 3.2e6 sample intervals per window
+    (e.g. 2500 s at 1000 Hz), q in 0..3 whole windows and a remainder r on or next to the window boundary.
+    Only the tiling part (no filter / detrend / rotation) is evaluated."""
+    case = draw(strategy())
+    k = draw(gen.big_size(2 ** 14, 3_200_000))
+    q = draw(st.sampled_from([0, 1, 1, 2, 2, 3]))
+    r = draw(st.sampled_from([0, 1, 2, k - 1, k - 1, k - 2, k // 2, k // 3]))
+    n = max(40, min(q * k + r, 7_000_000))
+    rec = case["records"][0]
+    rec["n"] = n
+    case["records"] = [rec]
+    case["m"] = k
+    case["mode"] = draw(st.sampled_from(["exact", "frac"])) if n // k >= 1 else "too-long"
+    phi = draw(gen.floats(0.05, 0.95)) if case["mode"] == "frac" else 0.0
+    case["wl"] = k / case["fs"] if phi == 0.0 else (k + phi) / case["fs"]
+    case["big"] = True
+    return case
+
+
 def _rot(ns, ew, delta_deg):
     r = math.radians(delta_deg)
     c, s = math.cos(r), math.sin(r)
@@ -175,6 +199,12 @@ def check_case(case):
             n = len(a[0])
             tail = n - ((n // k) * k + 1)
             require(tail < k, f"discarded tail of {tail} samples is not shorter than one window (k={k})")
+
+    if case.get("big"):
+        labels.append("big-k-2^%d" % int(math.log2(k)))
+        if nmin % k == k - 1:
+            labels.append("big-one-short-of-another-window")
+        return dict(labels=labels, nontrivial=nwin_total >= 1)
 
     # ---- 2. documented order of steps ------------------------------------------
     got = sut(hv.preprocess, build(), settings(), what="preprocess")
